@@ -70,10 +70,7 @@ fn must_diagnose(target: Ty, value: Ty, form: &str, negative: bool) -> Option<&'
         // anything to or from bit, bool, duration (and stretch, the other timing type)
         for special in ["bit", "bool", "duration", "stretch"] {
             if (target.base == special) != (value.base == special) {
-                // duration <-> stretch are both timing types: not demanded
-                if !(matches!(target.base, "duration" | "stretch") && matches!(value.base, "duration" | "stretch")) {
-                    return Some("to-or-from-bit-bool-duration");
-                }
+                return Some("to-or-from-bit-bool-duration");
             }
         }
         if (target.base == "angle") != (value.base == "angle") {
